@@ -41,3 +41,78 @@ fn opposite_direction_complete() {
     assert!(d.opposite_direction() != d);
     assert!(d.opposite_direction().opposite_direction() == d);
 }
+
+// ---- fixed-size scalar butterfly kernels: complete per kernel (C03, C09, C15) -------------------------------------------------
+// Every index in these kernels is a constant (or ranges over a constant loop), so one symbolic execution over ALL element
+// values and both directions is a complete proof that the kernel, called the way the (Verus-verified) helpers call it -
+// with exactly `len` elements - (a) dereferences only inside its buffers (CBMC pointer checks on the get_unchecked
+// accesses of LoadStore), (b) reaches no panic, (c) in the DoubleBuf (immutable-input) form leaves the input bit-identical.
+// The three LoadStore implementations are exercised: `&mut [Complex<T>]`, `&mut [Complex<T>; N]`, `DoubleBuf`.
+fn any_cx32() -> Complex<f32> { Complex { re: f32::from_bits(kani::any()), im: f32::from_bits(kani::any()) } }
+fn any_cx64() -> Complex<f64> { Complex { re: f64::from_bits(kani::any()), im: f64::from_bits(kani::any()) } }
+macro_rules! butterfly_kernel_harness {
+    ($name:ident, $ty:ident, $n:expr, $t:ty, $any:ident) => {
+        #[kani::proof]
+        #[kani::unwind(34)]
+        fn $name() {
+            use crate::array_utils::DoubleBuf;
+            let d = if kani::any() { FftDirection::Forward } else { FftDirection::Inverse };
+            let f = crate::algorithm::butterflies::$ty::<$t>::new(d);
+            assert!(crate::Length::len(&f) == $n);
+            assert!(crate::Direction::fft_direction(&f) == d);
+            let mut a: [Complex<$t>; $n] = [Complex { re: 0.0, im: 0.0 }; $n];
+            for i in 0..$n { a[i] = $any(); }
+            let before: [Complex<$t>; $n] = a;
+            let mut b: [Complex<$t>; $n] = [Complex { re: 0.0, im: 0.0 }; $n];
+            unsafe {
+                f.perform_fft_butterfly(DoubleBuf { input: &a[..], output: &mut b[..] });
+            }
+            for i in 0..$n { assert!(a[i].re.to_bits() == before[i].re.to_bits() && a[i].im.to_bits() == before[i].im.to_bits()); }
+            unsafe {
+                f.perform_fft_butterfly(&mut a[..]);
+                f.perform_fft_butterfly(&mut b);
+            }
+            kani::cover!(true, "end of harness reachable");
+        }
+    };
+}
+butterfly_kernel_harness!(butterfly2_kernel_f32, Butterfly2, 2, f32, any_cx32);
+butterfly_kernel_harness!(butterfly3_kernel_f32, Butterfly3, 3, f32, any_cx32);
+butterfly_kernel_harness!(butterfly4_kernel_f32, Butterfly4, 4, f32, any_cx32);
+butterfly_kernel_harness!(butterfly5_kernel_f32, Butterfly5, 5, f32, any_cx32);
+butterfly_kernel_harness!(butterfly6_kernel_f32, Butterfly6, 6, f32, any_cx32);
+butterfly_kernel_harness!(butterfly7_kernel_f32, Butterfly7, 7, f32, any_cx32);
+butterfly_kernel_harness!(butterfly8_kernel_f32, Butterfly8, 8, f32, any_cx32);
+butterfly_kernel_harness!(butterfly9_kernel_f32, Butterfly9, 9, f32, any_cx32);
+butterfly_kernel_harness!(butterfly11_kernel_f32, Butterfly11, 11, f32, any_cx32);
+butterfly_kernel_harness!(butterfly12_kernel_f32, Butterfly12, 12, f32, any_cx32);
+butterfly_kernel_harness!(butterfly13_kernel_f32, Butterfly13, 13, f32, any_cx32);
+butterfly_kernel_harness!(butterfly16_kernel_f32, Butterfly16, 16, f32, any_cx32);
+butterfly_kernel_harness!(butterfly17_kernel_f32, Butterfly17, 17, f32, any_cx32);
+butterfly_kernel_harness!(butterfly19_kernel_f32, Butterfly19, 19, f32, any_cx32);
+butterfly_kernel_harness!(butterfly23_kernel_f32, Butterfly23, 23, f32, any_cx32);
+butterfly_kernel_harness!(butterfly24_kernel_f32, Butterfly24, 24, f32, any_cx32);
+butterfly_kernel_harness!(butterfly27_kernel_f32, Butterfly27, 27, f32, any_cx32);
+butterfly_kernel_harness!(butterfly29_kernel_f32, Butterfly29, 29, f32, any_cx32);
+butterfly_kernel_harness!(butterfly31_kernel_f32, Butterfly31, 31, f32, any_cx32);
+butterfly_kernel_harness!(butterfly32_kernel_f32, Butterfly32, 32, f32, any_cx32);
+butterfly_kernel_harness!(butterfly2_kernel_f64, Butterfly2, 2, f64, any_cx64);
+butterfly_kernel_harness!(butterfly3_kernel_f64, Butterfly3, 3, f64, any_cx64);
+butterfly_kernel_harness!(butterfly4_kernel_f64, Butterfly4, 4, f64, any_cx64);
+butterfly_kernel_harness!(butterfly5_kernel_f64, Butterfly5, 5, f64, any_cx64);
+butterfly_kernel_harness!(butterfly6_kernel_f64, Butterfly6, 6, f64, any_cx64);
+butterfly_kernel_harness!(butterfly7_kernel_f64, Butterfly7, 7, f64, any_cx64);
+butterfly_kernel_harness!(butterfly8_kernel_f64, Butterfly8, 8, f64, any_cx64);
+butterfly_kernel_harness!(butterfly9_kernel_f64, Butterfly9, 9, f64, any_cx64);
+butterfly_kernel_harness!(butterfly11_kernel_f64, Butterfly11, 11, f64, any_cx64);
+butterfly_kernel_harness!(butterfly12_kernel_f64, Butterfly12, 12, f64, any_cx64);
+butterfly_kernel_harness!(butterfly13_kernel_f64, Butterfly13, 13, f64, any_cx64);
+butterfly_kernel_harness!(butterfly16_kernel_f64, Butterfly16, 16, f64, any_cx64);
+butterfly_kernel_harness!(butterfly17_kernel_f64, Butterfly17, 17, f64, any_cx64);
+butterfly_kernel_harness!(butterfly19_kernel_f64, Butterfly19, 19, f64, any_cx64);
+butterfly_kernel_harness!(butterfly23_kernel_f64, Butterfly23, 23, f64, any_cx64);
+butterfly_kernel_harness!(butterfly24_kernel_f64, Butterfly24, 24, f64, any_cx64);
+butterfly_kernel_harness!(butterfly27_kernel_f64, Butterfly27, 27, f64, any_cx64);
+butterfly_kernel_harness!(butterfly29_kernel_f64, Butterfly29, 29, f64, any_cx64);
+butterfly_kernel_harness!(butterfly31_kernel_f64, Butterfly31, 31, f64, any_cx64);
+butterfly_kernel_harness!(butterfly32_kernel_f64, Butterfly32, 32, f64, any_cx64);
